@@ -7,6 +7,7 @@ import Driver.GSort
 import Driver.EnvTmpl
 import Driver.Gencommon
 import Driver.GErrClone
+import Driver.Gogenproto
 /-! Line-protocol driver: one request per line on stdin, one answer per line on stdout.
 Core-only so that it links as a native executable. -/
 open Drv
@@ -20,12 +21,14 @@ structure DState where
   gcm : Drv.GC.St := {}
   ge : Drv.GErrClone.St := []
   gx : Drv.GErrClone.XSt := {}
+  gp : Drv.Gogenproto.St := {}
 
 def step (st : DState) (line : String) : DState × String :=
   match words line with
   | "bs" :: rest => (st, BitSet.handle rest)
   | "set" :: rest => let r := Drv.Set.handle st.set rest; ({ st with set := r.1 }, r.2)
   | "gc" :: rest => let r := Drv.GConfig.handle st.gc rest; ({ st with gc := r.1 }, r.2)
+  | "gp" :: rest => let r := Drv.Gogenproto.handle st.gp rest; ({ st with gp := r.1 }, r.2)
   | "ge" :: rest => let r := Drv.GErrClone.handle st.ge rest; ({ st with ge := r.1 }, r.2)
   | "gx" :: rest => let r := Drv.GErrClone.handleX st.gx rest; ({ st with gx := r.1 }, r.2)
   | "gcm" :: rest => let r := Drv.GC.handle st.gcm rest; ({ st with gcm := r.1 }, r.2)
